@@ -2,6 +2,8 @@
 #[derive(Clone, Debug, PartialEq, Eq)]
 pub enum Val {
     N(u64),
+    /// a number beyond 64 bits (same syntax as N)
+    Big(u128),
     B(Vec<u8>),
     L(Vec<Val>),
 }
@@ -22,6 +24,7 @@ impl Val {
     pub fn write(&self, out: &mut String) {
         match self {
             Val::N(n) => out.push_str(&n.to_string()),
+            Val::Big(n) => out.push_str(&n.to_string()),
             Val::B(b) => {
                 out.push('x');
                 for c in b {
@@ -75,7 +78,10 @@ impl Val {
             }
             Ok((Val::B(b), i + 1))
         } else {
-            Ok((Val::N(t.parse::<u64>().map_err(|e| e.to_string())?), i + 1))
+            match t.parse::<u64>() {
+                Ok(n) => Ok((Val::N(n), i + 1)),
+                Err(_) => Ok((Val::Big(t.parse::<u128>().map_err(|e| e.to_string())?), i + 1)),
+            }
         }
     }
     pub fn as_list(&self) -> Option<&Vec<Val>> {
@@ -88,6 +94,20 @@ impl Val {
         match self {
             Val::N(n) => Some(*n),
             _ => None,
+        }
+    }
+    pub fn as_n128(&self) -> Option<u128> {
+        match self {
+            Val::N(n) => Some(*n as u128),
+            Val::Big(n) => Some(*n),
+            _ => None,
+        }
+    }
+    pub fn n128(n: u128) -> Val {
+        if n <= u64::MAX as u128 {
+            Val::N(n as u64)
+        } else {
+            Val::Big(n)
         }
     }
     pub fn as_b(&self) -> Option<&Vec<u8>> {
